@@ -13,7 +13,7 @@ mkdir -p $ROOT/repo $ROOT/verif
 # (after rsync has finished -- it sets the old mtime when it finalises each file)
 rsync -a --delete --exclude target --exclude .git --out-format='%n' /repo/ $ROOT/repo/ > $ROOT/.restored
 while read f; do [ -f "$ROOT/repo/$f" ] && touch "$ROOT/repo/$f"; done < $ROOT/.restored
-rsync -a --delete --exclude harness/target --exclude work --exclude replays --exclude evidence --exclude .git /verif/ $ROOT/verif/
+rsync -a --delete --exclude harness/target --exclude "harness/target-*" --exclude work --exclude replays --exclude evidence --exclude .git /verif/ $ROOT/verif/
 if [ "$PATCH" != "-" ]; then
   (cd $ROOT/repo && patch -p1 --no-backup-if-mismatch < "$PATCH") || { echo "patch failed"; exit 3; }
   (cd $ROOT/repo && grep '^+++ ' "$PATCH" | sed 's#^+++ [ab]/##; s#\t.*##' | while read f; do [ -f "$f" ] && touch "$f"; done)
